@@ -80,6 +80,10 @@ func VerifServerDial(
 	conn, err := s.dial(
 		context.Background(), &TLSHelloInfo{ServerName: domain}, asAddr,
 	)
+	return verifDialResult(conn, err)
+}
+
+func verifDialResult(conn net.Conn, err error) string {
 	if err == nil {
 		if conn == nil {
 			return "nilconn" // neither a connection nor an error
@@ -101,6 +105,56 @@ func VerifServerDial(
 		return "nolookup"
 	}
 	return "err:" + msg
+}
+
+// VerifDialServer is one Server, kept across calls, for histories in which
+// the configured Lookup changes its answers between connections.
+type VerifDialServer struct {
+	s *Server
+}
+
+// NewVerifDialServer builds the server of VerifServerDial once.
+func NewVerifDialServer(
+	config *ServerConfig, hasHome, hasForward bool, endpoints []string,
+) *VerifDialServer {
+	cfg := *config
+	cfg.DialHome, cfg.DialForward = nil, nil
+	if hasHome {
+		cfg.DialHome = func(context.Context) (net.Conn, error) {
+			return nil, &verifMarker{"home"}
+		}
+	}
+	if hasForward {
+		cfg.DialForward = func(_ context.Context, fwd string) (net.Conn, error) {
+			return nil, &verifMarker{"forward:" + fwd}
+		}
+	}
+	v := &VerifDialServer{s: NewServer(&cfg)}
+	v.SetEndpoints(endpoints)
+	return v
+}
+
+// SetEndpoints replaces the endpoint table.
+func (v *VerifDialServer) SetEndpoints(endpoints []string) {
+	v.s.mu.Lock()
+	defer v.s.mu.Unlock()
+	v.s.endpoints = make(map[string]*endpointClient)
+	for _, name := range endpoints {
+		name := name
+		ep := &endpointClient{options: &Options{Siding: true}}
+		ep.setToken(func() (string, error) {
+			return "", &verifMarker{"endpoint:" + name}
+		})
+		v.s.endpoints[name] = ep
+	}
+}
+
+// Dial runs Server.dial on the kept server; results as VerifServerDial.
+func (v *VerifDialServer) Dial(domain, asAddr string) string {
+	conn, err := v.s.dial(
+		context.Background(), &TLSHelloInfo{ServerName: domain}, asAddr,
+	)
+	return verifDialResult(conn, err)
 }
 
 // VerifOffice drives a connMailOffice and a sessionID.
